@@ -158,10 +158,6 @@ _C11 = [
             "a value that is itself a message: lengths add up, the outer view yields bytes that the inner view decodes to the "
             "inner pair", kind="bounded", bound="one level of nesting, one pair each, value <= {VL} bytes", timeout=1500,
             mod="encoder", tiers=("thorough",)),
-    Harness("c11_stable_order_many_pairs", ["C11"], "MessageWrapper::new",
-            "ties keep insertion order beyond the small-slice regime of the standard sorts: {NSORT} pairs, tags cycling 2,1,0 "
-            "(concrete), symbolic one-byte values; emitted tags ascending and values in stable order; emitted length == rough_tlv_len",
-            kind="bounded", bound="{NSORT} pairs, one concrete tag pattern, symbolic values", timeout=1500, mod="encoder"),
     Harness("c11_length_limits_full_domain", ["C11"], "MessageWrapper::compute_len",
             "for value lengths over the FULL usize domain: Err <=> some length > i32::MAX or (header + sum of lengths, computed "
             "without saturation) > i32::MAX; Ok(l) => l is the exact total", kind="bounded",
@@ -173,8 +169,8 @@ ROUGH_TLV = KaniUnit(
     crate="rough_tlv",
     attachments=[("rough_tlv/src/decoder.rs", os.path.join(KC, "rough_tlv_decoder.rs"), "decoder"),
                  ("rough_tlv/src/encoder.rs", os.path.join(KC, "rough_tlv_encoder.rs"), "encoder")],
-    params={"quick": {"L": 20, "U": 6, "LW": 88, "UW": 24, "K": 2, "KR": 1, "VL": 1, "U11": 8, "NSORT": 36, "USORT": 40},
-            "thorough": {"L": 24, "U": 7, "LW": 136, "UW": 36, "K": 3, "KR": 2, "VL": 2, "U11": 12, "NSORT": 66, "USORT": 70}},
+    params={"quick": {"L": 20, "U": 6, "LW": 88, "UW": 24, "K": 2, "KR": 1, "VL": 1, "U11": 8, "NE": 18, "UE": 40},
+            "thorough": {"L": 24, "U": 7, "LW": 136, "UW": 36, "K": 3, "KR": 2, "VL": 2, "U11": 12, "NE": 34, "UE": 72}},
     harnesses=_C11 + [
         Harness("c12_new_accepts_exactly", ["C12"], "MessageView::new",
                 "never panics; Ok <=> >= 4 bytes /\\ 8N <= len /\\ offsets non-decreasing /\\ tags non-decreasing "
@@ -183,6 +179,10 @@ ROUGH_TLV = KaniUnit(
                 "acceptance only, wider window: never panics; Ok <=> the format's acceptance rule, with up to LW/8 pairs in the "
                 "header", kind="bounded", bound="every byte string of length <= {LW} (N up to {LW}/8)", covers=3, timeout=3000,
                 mod="decoder"),
+        Harness("c12_new_accepts_exactly_each_n", ["C12"], "MessageView::new",
+                "acceptance only, pair count by pair count: for each N in 1..={NE}, every header of N pairs (symbolic offsets "
+                "and tags) before a 4-byte payload: never panics; Ok <=> the format's acceptance rule", kind="bounded",
+                bound="each N in 1..={NE}, byte length 8N+4, all header words symbolic", covers=4, timeout=1500, mod="decoder"),
         Harness("c12_values_tile", ["C12"], "MessageView::get_value",
                 "on every accepted message, for every i < N: get_value(i) is the sub-slice [8N+start_i, 8N+end_i) "
                 "(pointer identity), start_0 = 0, start_{i+1} = end_i, end_{N-1} = len: the values tile the bytes "
@@ -239,8 +239,10 @@ import units_hcobs
 import units_vouched_time
 import units_sliding_deque
 import units_chunker
+import units_arena_read
 VERUS_UNITS = {"hcobs": units_hcobs.HCOBS, "vouched_time": units_vouched_time.VOUCHED_TIME_VX,
-               "sliding_deque": units_sliding_deque.SLIDING_DEQUE_VX, "chunker": units_chunker.CHUNKER}
+               "sliding_deque": units_sliding_deque.SLIDING_DEQUE_VX, "chunker": units_chunker.CHUNKER,
+               "arena_read": units_arena_read.ARENA_READ}
 
 # property -> description of how it is decided
 PROPERTIES = {
@@ -335,9 +337,12 @@ PROPERTIES["C08"] = {
 PROPERTIES["C17"] = {
     "level": "model_checking",
     "kani_units": ["owning_iovec"],
-    "verus_units": ["hcobs"],
+    "verus_units": ["arena_read", "hcobs"],
     "assumptions": [
-        "bounded (owning_iovec half): reader scripts of <= 4 (quick) / 5 (thorough) steps, count <= 4 / 5, attempts <= 4 / 5",
+        "arena half, UNBOUNDED (Verus unit arena_read): ByteArena::read_n_impl for every reader script, count and attempt "
+        "limit, against the ASSUMED contract of std::io::Read::read (one call = one script step; a delivery is non-empty, fits "
+        "the buffer offered, lands at its start, leaves the rest untouched) and of <[u8]>::fill, io::Error::kind, Option::replace",
+        "bounded (owning_iovec half, Kani, kept as an independent second engine with counterexample playback): reader scripts of <= 4 (quick) / 5 (thorough) steps, count <= 4 / 5, attempts <= 4 / 5",
         "ASSUMED: the unsafe alloc/release wrapper ByteArena::read_n around read_n_impl (arena code: Kani out of memory, "
         "outside Verus's subset) hands read_n_impl a zeroed buffer of exactly `count` bytes and returns its first `got` bytes; "
         "arena states (empty cache, nearly full chunk) are therefore NOT explored",
